@@ -154,15 +154,62 @@ func keyspaceRules(c *Ctx) {
 			}
 		}
 		R.Check(pat == "^/?(.*/)?(ac/|cas/)([a-f0-9]{64})$", "R15c", c.Cfg+"blobNameSHA256", "", "the URL grammar is ^/?(.*/)?(ac/|cas/)([a-f0-9]{64})$", "the URL grammar is "+pat)
-		// group 3 is the hash, group 1 the instance
-		okGroups := false
+		// group 3 is the hash, group 1 the instance; the grammar is applied to the raw request path
+		info := fi.Pkg.TypesInfo
+		var mObj types.Object
+		subjectRaw := false
 		ast.Inspect(fi.Decl.Body, func(n ast.Node) bool {
-			if as, ok := n.(*ast.AssignStmt); ok && len(as.Lhs) == 1 && exprStr(as.Lhs[0]) == "parts" && strings.ReplaceAll(exprStr(as.Rhs[0]), " ", "") == "m[2:]" {
-				okGroups = true
+			if as, ok := n.(*ast.AssignStmt); ok && len(as.Lhs) == 1 && len(as.Rhs) == 1 {
+				if call, ok := ast.Unparen(as.Rhs[0]).(*ast.CallExpr); ok && fullCalleeName(info, call) == "regexp.(Regexp).FindStringSubmatch" && len(call.Args) == 1 {
+					mObj = identObj(info, as.Lhs[0])
+					if o := identObj(info, call.Args[0]); o != nil && o == paramObj(fi, 0) {
+						subjectRaw = true
+					}
+				}
 			}
 			return true
 		})
-		R.Check(okGroups, "R15c", c.Cfg+"parseRequestURL:groups", c.P.Pos(fi.Decl.Pos()), "kind and hash are taken from capture groups 2 and 3", "parts is not m[2:]")
+		okGroups, okInst := false, false
+		urlAssigned := false
+		ast.Inspect(fi.Decl.Body, func(n ast.Node) bool {
+			as, ok := n.(*ast.AssignStmt)
+			if !ok || len(as.Lhs) != 1 || len(as.Rhs) != 1 {
+				return true
+			}
+			if o := identObj(info, as.Lhs[0]); o != nil && o == paramObj(fi, 0) {
+				urlAssigned = true
+			}
+			if sl, ok := ast.Unparen(as.Rhs[0]).(*ast.SliceExpr); ok && mObj != nil && identObj(info, sl.X) == mObj && sl.Low != nil && exprStr(sl.Low) == "2" && sl.High == nil {
+				okGroups = true
+			}
+			// instance = strings.TrimSuffix(m[1], "/")
+			if call, ok := ast.Unparen(as.Rhs[0]).(*ast.CallExpr); ok && fullCalleeName(info, call) == "strings.TrimSuffix" && len(call.Args) == 2 {
+				if ix, ok := ast.Unparen(call.Args[0]).(*ast.IndexExpr); ok && mObj != nil && identObj(info, ix.X) == mObj && exprStr(ix.Index) == "1" {
+					if v, _ := constString(info, call.Args[1]); v == "/" {
+						if o := identObj(info, as.Lhs[0]); o != nil && o == resultObj(fi, 2) {
+							okInst = true
+						}
+					}
+				}
+			}
+			return true
+		})
+		nInst := 0
+		ast.Inspect(fi.Decl.Body, func(n ast.Node) bool {
+			if as, ok := n.(*ast.AssignStmt); ok {
+				for _, l := range as.Lhs {
+					if o := identObj(info, l); o != nil && o == resultObj(fi, 2) {
+						nInst++
+					}
+				}
+			}
+			return true
+		})
+		R.Check(okGroups, "R15c", c.Cfg+"parseRequestURL:groups", c.P.Pos(fi.Decl.Pos()), "kind and hash are taken from capture groups 2 and 3", "no slice m[2:] of the regexp match")
+		R.Check(subjectRaw && !urlAssigned, "R15d", c.Cfg+"parseRequestURL:subject-is-raw-url", c.P.Pos(fi.Decl.Pos()), "the URL grammar is applied to the request path as received (the function's own url parameter, never reassigned)",
+			"the URL regexp is matched against something other than the raw url parameter: the instance name (and the key) parsed over HTTP then differs from the one gRPC clients send")
+		R.Check(okInst && nInst == 1, "R15d", c.Cfg+"parseRequestURL:instance-is-group1", c.P.Pos(fi.Decl.Pos()), "the HTTP instance name is capture group 1 without its trailing slash and nothing else (so that it equals the gRPC instance_name)",
+			fmt.Sprintf("instance result is not exactly strings.TrimSuffix(m[1], \"/\") (assignments to it: %d)", nInst))
 	}
 
 	// R15d + R15e on the path engine
@@ -540,4 +587,22 @@ func constOfKind(c *Ctx, name string) string {
 		}
 	}
 	return ""
+}
+
+// resultObj returns the object of the idx-th named result of fi (nil if the
+// results are unnamed or absent).
+func resultObj(fi *FuncInfo, idx int) types.Object {
+	i := 0
+	if fi.Decl.Type.Results == nil {
+		return nil
+	}
+	for _, f := range fi.Decl.Type.Results.List {
+		for _, n := range f.Names {
+			if i == idx {
+				return fi.Pkg.TypesInfo.Defs[n]
+			}
+			i++
+		}
+	}
+	return nil
 }
